@@ -2472,10 +2472,11 @@ impl BrailleChars {
 
         fn lower_case_roman_numerals(mn_node: Element) {
             if mn_node.attribute("data-roman-numeral").is_some() {
-                // if a roman numeral, all ASCII so we can optimize
+                // a roman numeral is usually all ASCII, but 'mathvariant' can have turned the letters into math alphanumerics (not one byte each)
                 let text = as_text(mn_node);
-                let mut new_text = String::from(&text[..1]);
-                new_text.push_str(text[1..].to_ascii_lowercase().as_str());    // works for single char too
+                let i_second_char = text.chars().next().map_or(0, |ch| ch.len_utf8());
+                let mut new_text = String::from(&text[..i_second_char]);
+                new_text.push_str(text[i_second_char..].to_ascii_lowercase().as_str());    // works for single char too
                 mn_node.set_text(&new_text);
             }
         }
